@@ -21,7 +21,7 @@ from concurrent.futures import ThreadPoolExecutor
 from pathlib import Path
 
 CID = "C04"
-TMP = V.BUILD / "tmp" / CID
+TMP = V.BUILD / "tmp" / CID / str(os.getpid())   # per process: concurrent runs (other tier / seed) must not share case files
 
 # ----------------------------------------------------------------------------------------------
 # case representation (plain dicts) and its text format (see harness/C04_clk.cpp)
@@ -639,6 +639,11 @@ def shrink(exe, c):
     return cur
 
 
+def _oracle_job(c):
+    st = {}
+    return c["id"], oracle(c, st), st
+
+
 def main():
     tier = V.tier()
     rep = V.Report(CID)
@@ -684,7 +689,7 @@ def main():
             cases += parse_cases(f.read_text())
         ncorpus = len(cases)
         rng = random.Random(V.seed() * 1000003 + 4)
-        ngen, steps = (200, 60) if tier == "quick" else (1500, 120)
+        ngen, steps = (200, 60) if tier == "quick" else (12000, 160)
         i = 0
         while len(cases) < ncorpus + ngen:
             c = gen_case(rng, f"g{i}", steps)
@@ -702,8 +707,16 @@ def main():
         model, model_sh, merr, merr2 = {}, {}, [], []
     orac = {}
     rule_hist = {}
-    for c in cases:
-        orac[c["id"]] = oracle(c, rule_hist)
+    if len(cases) > 400:
+        from concurrent.futures import ProcessPoolExecutor
+        with ProcessPoolExecutor(max_workers=V.NCPU) as ex:
+            for cid_, lines_, st_ in ex.map(_oracle_job, cases, chunksize=64):
+                orac[cid_] = lines_
+                for k_, v_ in st_.items():
+                    rule_hist[k_] = rule_hist.get(k_, 0) + v_
+    else:
+        for c in cases:
+            orac[c["id"]] = oracle(c, rule_hist)
 
     mism_model, mism_oracle, mism_shuffle, errors = [], [], [], []
     hist = dict(family={}, trig={}, rst={}, shared_pin_opposite_edge=0, derived=0, cdc_regs=0,
@@ -788,6 +801,14 @@ def main():
     rep.cov["register_rule_histogram"] = rule_hist   # counted by the oracle, which agrees with the implementation line by line
     rep.cov["largest_numerator_or_denominator_of_any_simulation_time"] = maxden
     rep.cov["event_order_translator"] = tout.strip()[:400]
+    rep.cov["observations"] = [
+        "Q7 (by design, DESIGN.md section 8): a derived clock with its parent's name, frequency and phase but the opposite single trigger edge "
+        "shares the parent's clock pin (Clock::inheritsClockPinSource ignores the trigger); its registers are advanced at (j+1/2)/f, not at j/f. "
+        f"Theorem activation_times_opposite states this, activation_at_period_multiples_refuted gives the witness; {hist['shared_pin_opposite_edge']} such domains were simulated in this run and the real simulator agrees with model and oracle on all of them.",
+        "Node_Register::simulatePowerOn writes the reset value at time 0 whatever initializeRegs, reset kind and polarity say (the test is commented out in the source); theorem power_on_outputs; the tie runs initializeRegs on and off.",
+        "powerOn's zero-hold-time branch only exists for reset pins without clocked nodes (theorem zero_hold_no_register); its onReset callback was wrong until the repair recorded as `fixed: property=C20 58165a4`; corpus/C04/01_nodeless_reset_pin.cases keeps the configuration in the tie.",
+        "minResetTime / minResetCycles of a derived clock that shares its parent's reset pin only count through Clock::getMinReset* of the reset pin's SOURCE clock, converted with the source clock's frequency (as modelled).",
+    ]
     rep.cov["samples"] = [dict(case=case_text(c), impl_log=impl[c["id"]][:14]) for c in cases[ncorpus:ncorpus + 2]]
     rep.assumptions += [
         "boost::rational<uint64_t> overflow is outside the model (Q is unbounded); the generated frequencies keep every numerator/denominator below 2^60 (largest seen is in coverage)",
@@ -835,7 +856,13 @@ def main():
             rep.violation(dict(property=CID, what_broke=broken,
                                note="no configuration found on which the real simulator differs from the independent oracle within the budget"),
                           nofail=True)
+    shutil_rm(TMP)
     rep.finish()
+
+
+def shutil_rm(p):
+    import shutil
+    shutil.rmtree(p, ignore_errors=True)
 
 
 if __name__ == "__main__":
